@@ -152,9 +152,10 @@ def species_emitters(run, repo):
         run.check(I.plain(d.d.get('name')) == name and d.d.get('composition') is els, 'SLOT.yaml',
                   cname + '.to_omkm_yaml', 'name and composition', 'name/composition not carried over', owner.module, fn)
         sites = d.d.get('sites')
-        sites = sites.items[0] if isinstance(sites, ListV) and len(sites) == 1 else sites
         run.check(isinstance(sites, Rat) and sites.eq(ns), 'SLOT.yaml', cname + '.to_omkm_yaml', 'site occupancy',
-                  'sites is %s' % show(d.d.get('sites')), owner.module, fn)
+                  'sites is %s (%s): expected the plain number n_sites - a sequence is serialised as a sequence (a '
+                  'tuple as a python/tuple tag no YAML reader of OpenMKM accepts)'
+                  % (show(d.d.get('sites')), type(sites).__name__), owner.module, fn)
 
 
 def phase_emitters(run, repo):
@@ -285,8 +286,12 @@ def phase_emitters(run, repo):
                 acc += s_.text
             elif s_.cls != 'num':
                 lit_before.setdefault(s_.value, []).append(acc)
-        slot_of = lambda v_: [b_[b_.rfind('=', 0, len(b_)) - 12:].split('=')[-2].split()[-1].strip('(,') if '=' in b_
-                              else None for b_ in lit_before.get(v_, [])]
+        import re
+
+        def slot_of(v_):
+            # the keyword whose value the field belongs to: the identifier before the last '=' of the text so far
+            found = [re.search(r'(\w+)\s*=[^=]*$', b_) for b_ in lit_before.get(v_, [])]
+            return [f_.group(1) if f_ else None for f_ in found]
         got = {str(k_).strip(Z): slot_of(k_) for k_ in (own_name, I.plain(get_public(I, adj_gas, 'name')), adj_bulk)}
         want = {'ownname': ['name'], 'adjgas': ['phases'], 'adjbulk': ['phases']}
         run.check(got == want, 'DATAFLOW.phase', 'InteractingInterface.to_cti', 'adjacent phases',
@@ -463,11 +468,18 @@ def reaction_emitters(run, repo):
             if clamp_args is None:
                 return val.eq(wantE)
             at = [x_ for x_ in val.atoms() if x_ in I.extrema and x_.startswith('MAX{')]
-            if len(at) != 1 or not val.eq(Rat.atom(at[0]) * Rk * T):
+            if len(at) != 1:
+                return False
+            # the largest of the candidates, taken before or after the multiplication with R T
+            if val.eq(Rat.atom(at[0]) * Rk * T):
+                cands = clamp_args
+            elif val.eq(Rat.atom(at[0])):
+                cands = [x_ * Rk * T for x_ in clamp_args]
+            else:
                 return False
             args_ = I.extrema[at[0]]
-            return all(any(same(x_, w_) for x_ in args_) for w_ in clamp_args) and \
-                all(any(same(x_, w_) for w_ in clamp_args) for x_ in args_)
+            return all(any(same(x_, w_) for x_ in args_) for w_ in cands) and \
+                all(any(same(x_, w_) for w_ in cands) for x_ in args_)
         e_text = show(wantE, 100) if clamp_args is None else 'max(%s) * R T [%s]' % (
             ', '.join(show(x_, 70) for x_ in clamp_args), e_unit)
         call_kw = {'T': T, 'P': P, 'units': u}
@@ -554,10 +566,44 @@ def other_emitters(run, repo):
         isinstance(x, (str, SegStr)) and num_fields(I, x) for x in flat(st)) else None
     run.check(ok, 'DATAFLOW.interaction', 'PiecewiseCovEffect.to_omkm_yaml', 'members, thresholds, id',
               'interaction entry is %s' % show(d.d if isinstance(d, DictV) else d, 200), owner.module, fn)
-    run.check(vals is not None and eq_list(vals, [s_ for s_ in sl.items]) or
-              vals is not None and eq_list(vals, [s_ * conv for s_ in sl.items]), 'DIM.strength',
-              'PiecewiseCovEffect.to_omkm_yaml', 'strengths',
-              'strengths written as %s for slopes %s' % (show(st, 160), show(sl, 80)), owner.module, fn)
+    labels = [''.join(s_.text for s_ in I.seg(x).segs if s_.kind == 'lit').strip().strip('"\'').strip()
+              for x in flat(st)] if vals is not None else None
+    run.check(vals is not None and eq_list(vals, [s_ * conv for s_ in sl.items]) and labels == ['kJ/mol'] * 2,
+              'DIM.strength', 'PiecewiseCovEffect.to_omkm_yaml', 'strengths',
+              'strengths written as %s for slopes %s [kcal/mol]: expected the slopes converted kcal/mol -> kJ/mol, each '
+              'labelled kJ/mol' % (show(st, 160), show(sl, 80)), owner.module, fn,
+              sample='PiecewiseCovEffect.to_omkm_yaml: strengths converted to the energy unit')
+    # the same in two more unit systems, the YAML entry and the CTI directive side by side
+    for e_u, q_u in (('eV', 'molecule'), ('J', 'mol')):
+        Iu = Interp(repo)
+        Du = Iu.D
+        uu = Frame(Iu, repo.module('pmutt'), {}, None, None).apply(
+            repo.cls('pmutt.omkm.units.Units'), [], {'energy': e_u, 'quantity': q_u}, None)
+        slu = ListV([Du.sym('k0'), Du.sym('k1'), Du.sym('k2')])
+        covu = Obj('cov', ci, attrs={'name_i': 'A(S)', 'name_j': 'B(S)', 'name': 'i_0003', 'slopes': slu,
+                                     'intervals': ListV([C(0), Du.sym('b1'), Du.sym('b2')])})
+        final = '%s/%s' % (e_u, q_u)
+        wantu = [s_ * (Iu.unit(final) / Iu.unit('kcal/mol')) for s_ in slu.items]
+        du = Iu.call_method(covu, 'to_omkm_yaml', [], {'units': uu})
+        stu = du.d.get('strength') if isinstance(du, DictV) else None
+        ents = flat(stu) if isinstance(stu, ListV) else []
+        oku = len(ents) == 3 and all(isinstance(x, (str, SegStr)) and len(num_fields(Iu, x)) == 1 for x in ents)
+        oku = oku and eq_list([num_fields(Iu, x)[0] for x in ents], wantu) and all(
+            ''.join(s_.text for s_ in Iu.seg(x).segs if s_.kind == 'lit').strip().strip('"\'').strip() == final
+            for x in ents)
+        run.check(oku, 'DIM.strength', 'PiecewiseCovEffect.to_omkm_yaml', 'strengths in ' + final,
+                  'with Units(energy=%s, quantity=%s) the strengths are written as %s for slopes %s [kcal/mol]: '
+                  'expected the slopes converted kcal/mol -> %s, each labelled %s'
+                  % (e_u, q_u, show(stu if stu is not None else du, 200), show(slu, 80), final, final),
+                  owner.module, fn)
+        o_c, f_c = repo.find_method(ci, 'to_cti')
+        outu = Iu.call_method(covu, 'to_cti', [], {'units': uu})
+        numsu = num_fields(Iu, outu) if isinstance(outu, (str, SegStr)) else []
+        run.check(eq_list(numsu, [Du.sym('b1'), Du.sym('b2')] + wantu), 'DIM.strength', 'PiecewiseCovEffect.to_cti',
+                  'thresholds and strengths in ' + final,
+                  'with Units(energy=%s, quantity=%s) the directive carries %s, expected the thresholds then the '
+                  'slopes converted kcal/mol -> %s' % (e_u, q_u, show(ListV(numsu) if numsu else outu, 200), final),
+                  o_c.module, f_c)
     owner, fn = repo.find_method(ci, 'to_cti')
     out = I.call_method(cov, 'to_cti', [], {'units': u})
     if isinstance(out, Raised):
